@@ -152,6 +152,25 @@ class Fn:
         _fail(node, "type mismatch: have %s want %s in %s" % (t, want, ast.dump(node)[:80]))
 
     def expr(self, n, env):
+        # [C09] spec option "expr_alias": a fixed sub-expression (compared as ast.unparse text) stands for a declared name
+        if self.spec.get("expr_alias") and isinstance(n, (ast.Subscript, ast.Attribute)):
+            al = self.spec["expr_alias"].get(ast.unparse(n))
+            if al is not None:
+                if al not in env:
+                    _fail(n, "alias target %s unknown" % al)
+                return (env[al][0], env[al][1])
+        # [C09] spec option "np_methods": `a[..., i, j]` on a declared array record gathers one element
+        if self.spec.get("np_methods") and isinstance(n, ast.Subscript) and isinstance(n.slice, ast.Tuple) \
+                and len(n.slice.elts) == 3 and isinstance(n.slice.elts[0], ast.Constant) and n.slice.elts[0].value is Ellipsis:
+            base, bt = self.expr(n.value, env)
+            if isinstance(bt, tuple) and bt[0] == 'R' and "__getitem__" in self.records.get(bt[1], {}):
+                i, j = self.expr(n.slice.elts[1], env), self.expr(n.slice.elts[2], env)
+                if i[1] != 'Z' or j[1] != 'Z':
+                    _fail(n, "array gather with non-int indices")
+                proj, ft = self.records[bt[1]]["__getitem__"]
+                self.uses_T = True
+                return ("(%s %s %s %s)" % (proj, base, i[0], j[0]), ft)
+            _fail(n, "ellipsis subscript on %s" % (bt,))
         if isinstance(n, ast.Constant):
             v = n.value
             if isinstance(v, bool):
@@ -194,6 +213,10 @@ class Fn:
                     and n.slice.elts[0].upper is None and n.slice.elts[0].step is None \
                     and isinstance(n.slice.elts[1], ast.Constant) and isinstance(n.slice.elts[1].value, int):
                 n = ast.copy_location(ast.Subscript(value=n.value, slice=n.slice.elts[1], ctx=n.ctx), n)
+            if isinstance(n.slice, ast.UnaryOp) and isinstance(n.slice.op, ast.USub) and isinstance(n.slice.operand, ast.Constant) \
+                    and isinstance(n.slice.operand.value, int) and not isinstance(n.slice.operand.value, bool):
+                # [C09] a negative literal index parses as -(k): same as the constant -k (previously rejected)
+                n = ast.copy_location(ast.Subscript(value=n.value, slice=ast.Constant(value=-n.slice.operand.value), ctx=n.ctx), n)
             if isinstance(bt, tuple) and bt[0] == 'T' and isinstance(n.slice, ast.Constant) \
                     and isinstance(n.slice.value, int):
                 i = n.slice.value
@@ -321,6 +344,25 @@ class Fn:
                     _fail(n, "slice.indices of a non-int")
                 return ("(let s__ := indices %s %s in (sstart s__, sstop s__, (1)))" % (base[0], arg[0]),
                         ('T', 'Z', 'Z', 'Z'))
+        # [C09] spec option "np_methods": element-wise ndarray methods  x.astype(int) / x.astype(<float dtype>) / x.clip(lo, hi)
+        if self.spec.get("np_methods") and isinstance(n.func, ast.Attribute) and n.func.attr in ("astype", "clip") and not n.keywords \
+                and not (isinstance(n.func.value, ast.Name) and n.func.value.id not in env):
+            base = self.expr(n.func.value, env)
+            if n.func.attr == "astype" and len(n.args) == 1:
+                if isinstance(n.args[0], ast.Name) and n.args[0].id == "int":
+                    if base[1] == 'Z':
+                        return base
+                    if base[1] == 'F':
+                        self.uses_T = True
+                        return ("(truncZ OP %s)" % base[0], 'Z')
+                elif ast.unparse(n.args[0]) in self.spec.get("float_dtypes", []) and base[1] == 'F':
+                    return base          # cast to the (binary64) dtype of the data: identity
+                _fail(n, "astype(%s) on %s" % (ast.unparse(n.args[0]), base[1]))
+            if n.func.attr == "clip" and len(n.args) == 2 and base[1] == 'F':
+                lo, hi = self.expr(n.args[0], env), self.expr(n.args[1], env)
+                self.uses_T = True
+                return ("(fmin OP (fmax OP %s %s) %s)" % (base[0], self.promote(n, lo, 'F'), self.promote(n, hi, 'F')), 'F')
+            _fail(n, "method %s" % n.func.attr)
         name = self.callname(n.func)
         if n.keywords:
             _fail(n, "keyword arguments in call to %s" % name)
@@ -812,6 +854,54 @@ def find_function(tree, qualname):
     return node
 
 
+# [C08] ----- spec option "slice_call": {"func": "<callee as written>", "args": [i, ...]}.  The function is reduced to the
+# backward slice of the selected positional arguments of its ONE call of <callee>: the top-level single-name assignments
+# (before the call) those arguments depend on, in source order, followed by `return (arg_i, ...)`.  Robust against
+# renaming locals and reordering independent statements; fails closed when a needed name is bound anywhere else
+# (tuple targets, augmented assignment, inside if/try/for/with, walrus, ...).
+def slice_call(fdef, opt):
+    calls = [n for n in ast.walk(fdef) if isinstance(n, ast.Call) and ast.unparse(n.func) == opt["func"]]
+    if len(calls) != 1:
+        raise Untranslatable("slice_call: expected exactly one call of %s, found %d" % (opt["func"], len(calls)))
+    call = calls[0]
+    if call.keywords or any(isinstance(a, ast.Starred) for a in call.args) or len(call.args) <= max(opt["args"]):
+        raise Untranslatable("slice_call: unexpected argument list of %s" % opt["func"])
+    rets = [call.args[i] for i in opt["args"]]
+    params = {a.arg for a in fdef.args.args}
+    top = {}
+    for st in fdef.body:
+        if isinstance(st, ast.Assign) and len(st.targets) == 1 and isinstance(st.targets[0], ast.Name) and st.end_lineno < call.lineno:
+            top.setdefault(st.targets[0].id, []).append(st)
+    bound = {}
+    for n in ast.walk(fdef):
+        if isinstance(n, ast.Name) and isinstance(n.ctx, (ast.Store, ast.Del)):
+            bound[n.id] = bound.get(n.id, 0) + 1
+        elif isinstance(n, (ast.ExceptHandler,)) and n.name:
+            bound[n.name] = bound.get(n.name, 0) + 1
+
+    def loads(e):
+        return {n.id for n in ast.walk(e) if isinstance(n, ast.Name) and isinstance(n.ctx, ast.Load)}
+    needed, keep, todo = set(), [], set().union(*[loads(e) for e in rets]) if rets else set()
+    while todo:
+        name = todo.pop()
+        if name in needed or name in params:
+            continue
+        needed.add(name)
+        if name not in top:
+            continue        # a global / module name: the expression translator decides (fails closed on unknown names)
+        if bound.get(name, 0) != 1 or len(top[name]) != 1:
+            raise Untranslatable("slice_call: %s is bound more than once" % name)
+        keep.append(top[name][0])
+        todo |= loads(top[name][0].value)
+    keep.sort(key=lambda st: st.lineno)
+    ret = ast.Return(value=ast.Tuple(elts=rets, ctx=ast.Load()))
+    new = ast.FunctionDef(name=fdef.name, args=fdef.args, body=keep + [ret], decorator_list=[], returns=None, type_comment=None)
+    ast.copy_location(new, fdef)
+    ast.copy_location(ret, call)
+    new.end_lineno = fdef.end_lineno
+    return ast.fix_missing_locations(new)
+
+
 def translate_module(repo, modname, mod):
     """mod: {"functions": [spec...], "generic": bool}. Returns Coq text."""
     out = ["(* GENERATED by tools/py2coq.py from the current /repo working tree -- do not edit. *)",
@@ -828,6 +918,8 @@ def translate_module(repo, modname, mod):
             src = cython_to_python(src, spec["qualname"])
         tree = ast.parse(src)
         fdef = find_function(tree, spec["qualname"])
+        if spec.get("slice_call"):  # [C08] off by default: no effect on other specs
+            fdef = slice_call(fdef, spec["slice_call"])
         fn = Fn(spec, fdef)
         try:
             text = fn.translate()
